@@ -234,7 +234,7 @@ func diagOr(n *refcbor.Node) string {
 }
 
 func runC11(c *mon.Ctx) {
-	c.Rule("histories = random sequences of 1..40 setter calls (all 9 setters of both profiles, values drawn from the C01 classes incl. every byte length 0..80 and lengths congruent to the legal ones modulo 2^8 / 2^16, valid and invalid interleaved, repeats) on a NewClaims object (or, one history in five, a zero-value struct literal without container) of either base profile or (a third of the histories) of the registered extension profile embedding it; after EVERY call the full observation (Validate + 10 getters + component getters) is compared with a last-successful-write-wins model, a refused call must also leave both encodings byte-identical, the setter must accept iff the reference predicate accepts; at the end the same final values are replayed once each in shuffled order on a fresh object and both encodings must be byte-identical. Also histories of 1..12 calls of the software component's own five setters on one component (every field compared with the model after every call) and histories of Add / Replace calls on the component container itself (valid and invalid lists; all-or-nothing, content compared through its CBOR form). Also single calls: every setter x every length 0..80 (and the congruent lengths). distinct_nontrivial = distinct (profile, setter, value-class, accepted?) + distinct history signatures")
+	c.Rule("histories = random sequences of 1..40 setter calls (all 9 setters of both profiles, values drawn from the C01 classes incl. every byte length 0..80 and lengths congruent to the legal ones modulo 2^8 / 2^16, valid and invalid interleaved, repeats) on a NewClaims object (or, one history in five, a zero-value struct literal without container) of either base profile or (a third of the histories) of the registered extension profile embedding it; after EVERY call the full observation (Validate + 10 getters + component getters) is compared with a last-successful-write-wins model, a refused call must also leave both encodings byte-identical, the setter must accept iff the reference predicate accepts; at the end the same final values are replayed once each in shuffled order on a fresh object and both encodings must be byte-identical. Also histories of 1..12 calls of the software component's own five setters on one component (every field compared with the model after every call) and histories of Add / Replace calls on the component container itself (valid and invalid lists; all-or-nothing, content compared through its CBOR form). Also setters called with an invalid value that the object already holds (assigned directly): refused all the same. Also single calls: every setter x every length 0..80 (and the congruent lengths). distinct_nontrivial = distinct (profile, setter, value-class, accepted?) + distinct history signatures")
 	g := model.NewGen(c.Seed*7001 + int64(c.Shard))
 	nh := c.N(30000, 1500000)
 	if err := extprof.Register(extprof.ExtP2Name, extprof.ExtP1Name); err != nil {
@@ -492,6 +492,74 @@ func runC11(c *mon.Ctx) {
 				break
 			}
 			c.Sig("container|" + op + fmt.Sprint(err == nil, n))
+		}
+	}
+	// ---- a setter judges the VALUE it is given, whatever the object holds already: an
+	// invalid value that is already stored (decoded without validation, or assigned
+	// directly) is refused like on a fresh object
+	for i := 0; i < c.N(6000, 120000); i++ {
+		p := 1 + g.R.Intn(2)
+		canon := c11Canon(g, p)
+		x, _ := psatoken.NewClaims(canon)
+		p1, p2 := obs.P1Of(x), obs.P2Of(x)
+		var name string
+		var serr error
+		switch g.R.Intn(5) {
+		case 0:
+			name = "SetCertificationReference"
+			bad := []string{g.Digits(13), g.Digits(12), "", g.Digits(13) + "-" + g.Digits(4), "abc"}[g.R.Intn(5)]
+			if model.CertRefOK(p, bad) {
+				continue
+			}
+			if p1 != nil {
+				p1.CertificationReference = &bad
+			} else {
+				p2.CertificationReference = &bad
+			}
+			serr = x.SetCertificationReference(bad)
+		case 1:
+			name = "SetVSI"
+			bad := ""
+			if p1 != nil {
+				p1.VSI = &bad
+			} else {
+				p2.VSI = &bad
+			}
+			serr = x.SetVSI(bad)
+		case 2:
+			name = "SetImplID"
+			bad := g.Bytes([]int{0, 31, 33, 64}[g.R.Intn(4)])
+			cp := append([]byte{}, bad...)
+			if p1 != nil {
+				p1.ImplID = &cp
+			} else {
+				p2.ImplID = &cp
+			}
+			serr = x.SetImplID(bad)
+		case 3:
+			name = "SetBootSeed"
+			bad := g.Bytes([]int{0, 7, 33, 64}[g.R.Intn(4)])
+			if model.BootSeedOK(p, len(bad)) {
+				continue
+			}
+			cp := append([]byte{}, bad...)
+			if p1 != nil {
+				p1.BootSeed = &cp
+			} else {
+				p2.BootSeed = &cp
+			}
+			serr = x.SetBootSeed(bad)
+		default:
+			name = "SetSecurityLifeCycle"
+			bad := uint16(0x7000 + g.R.Intn(0x8000))
+			obs.SetNumField(x, "SecurityLifeCycle", int64(bad))
+			serr = x.SetSecurityLifeCycle(bad)
+		}
+		c.Eval()
+		c.Count("setter-calls-on-preloaded-invalid-value")
+		c.Sig("preloaded|" + name)
+		if serr == nil {
+			c.Violation(fmt.Sprintf("C11/P%d/%s/accepted-invalid:already-stored", p, name), fmt.Sprintf("P%d %s accepted an invalid value because the claims-set already holds that very value", p, name), nil)
 		}
 	}
 	// single calls: every byte setter x every length
